@@ -63,7 +63,9 @@ def observe(cats, remove, skip, frame_rows, ncat, nnum, kind="str"):
     cols = ["c%d" % (c + 1) for c in range(ncat)]
     rm = [_name(cv // 100, cv % 100) for cv in remove] or None
     A = fit_frame(cats, ncat, nnum)
-    idx = [7 * r + 5 for r in range(len(frame_rows))]
+    # a non-default index; in every other case with repeated labels (a bootstrap sample, two files concatenated)
+    dup = (len(frame_rows) + ncat + len(remove) + int(skip)) % 2 == 0
+    idx = [7 * (r // 2 if dup else r) + 5 for r in range(len(frame_rows))]
     B = make_frame(frame_rows, ncat, nnum, idx)
     B0 = B.copy(deep=True)
     out = {}
